@@ -147,6 +147,10 @@ def _judge_damaged(case, damaged, opts, what, ref, out):
         out.append(d)
     if not diffs and case["fault"] == "missing":
         out.append(harness.disc("missing-file-ignored", what, "OSError", "a tree"))
+    if not diffs and case["fault"] == "truncate":
+        # the statement is "raises", not "raises or happens to return the right tree": a file
+        # that is shorter than its records declare was accepted
+        out.append(harness.disc("truncation-not-detected", what, "an exception", "a tree (equal to the undamaged one)"))
     for d in out:
         d.setdefault("context", {}).update({k: case[k] for k in ("cut", "rpc", "fs") if k in case})
     return out
